@@ -1,7 +1,223 @@
-//! C11 — not implemented yet (see DESIGN.md section 4).
-use kit::Run;
-use serde_json::Value;
+//! C11 — the reader's verdict does not depend on a wrong format hint (S-inp, exhaustive product).
+//!
+//! Every kit asset (signed with the default binding, signed with a box hash where available, unsigned) x every
+//! format string the SDK supports (MIME types from `Reader::supported_mime_types()` + the handlers' extensions) plus
+//! "", unknown strings and upper-case variants.
+//! Oracle: when the harness's own magic-number table (written from the container specifications) says the leading
+//! bytes identify a container, every hint must give the same observation as the correct hint: same error kind, or the same
+//! canonical report (manifest content, validation state and validation codes). For streams without a magic number
+//! (SVG, .c2pa, garbage) only "no panic" is demanded.
+//!
+//! Mutants caught (tools/mutant_run.sh B ... C11 quick):
+//!   /verif/mutants/C11-prefer-hint.diff   (format_from_stream returns the hint whenever the hint is a known format)
 
-pub fn run(_run: &Run, _replay: Option<&Value>) {
-    kit::ev::machinery("C11: check not implemented");
+use std::io::Cursor;
+
+use c2pa::Reader;
+use kit::{assets, par, sdk, tamper, Run};
+use serde_json::{json, Value};
+
+const EXTS: [&str; 27] = [
+    "avi", "avif", "arw", "c2pa", "dng", "flac", "gif", "heic", "heif", "jpeg", "jpg", "jxl", "m4a", "m4v", "mov", "mp3", "mp4", "nef", "pdf", "png",
+    "svg", "tif", "tiff", "wav", "webp", "ai", "psd",
+];
+
+/// Magic-number table written from the format specifications (independent of jumbf_io::container_from_stream).
+fn identifies_container(d: &[u8]) -> Option<&'static str> {
+    let s = |p: usize, pat: &[u8]| d.get(p..p + pat.len()) == Some(pat);
+    if s(0, &[0xFF, 0xD8, 0xFF]) {
+        Some("jpeg")
+    } else if s(0, &[0x89, b'P', b'N', b'G', 0x0D, 0x0A, 0x1A, 0x0A]) {
+        Some("png")
+    } else if s(0, b"GIF87a") || s(0, b"GIF89a") {
+        Some("gif")
+    } else if s(0, b"II*\0") || s(0, b"MM\0*") || s(0, b"II+\0") || s(0, b"MM\0+") {
+        Some("tiff")
+    } else if s(0, &[0, 0, 0, 0x0C, b'J', b'X', b'L', b' ', 0x0D, 0x0A, 0x87, 0x0A]) {
+        Some("jxl")
+    } else if s(0, b"RIFF") {
+        Some("riff")
+    } else if s(4, b"ftyp") {
+        Some("bmff")
+    } else if s(0, b"fLaC") {
+        Some("flac")
+    } else if s(0, b"ID3") && d.len() >= 10 {
+        Some("id3-audio")
+    } else if d.len() >= 2 && d[0] == 0xFF && d[1] & 0xE0 == 0xE0 {
+        Some("mpeg-audio")
+    } else if s(0, b"%PDF") {
+        Some("pdf")
+    } else {
+        None
+    }
+}
+
+#[derive(Clone, PartialEq, Debug)]
+enum Obs {
+    Panic(String),
+    Err(String),
+    Report(String),
+}
+
+fn observe(hint: &str, data: &[u8]) -> Obs {
+    let ctx = tamper::ctx_for(&[]);
+    match par::guard(|| Reader::from_shared_context(&ctx).with_stream(hint, Cursor::new(data))) {
+        Err(p) => Obs::Panic(p),
+        Ok(Err(e)) => Obs::Err(sdk::err_kind(&e)),
+        Ok(Ok(r)) => match par::guard(|| tamper::canon_report(&r)) {
+            Ok(c) => Obs::Report(c),
+            Err(p) => Obs::Panic(p),
+        },
+    }
+}
+
+fn short(o: &Obs) -> String {
+    match o {
+        Obs::Panic(p) => format!("panic: {p}"),
+        Obs::Err(k) => format!("Err({k})"),
+        Obs::Report(c) => {
+            let v: Value = serde_json::from_str(c).unwrap_or(Value::Null);
+            format!("report state={} ({} bytes)", v["state"].as_str().unwrap_or("?"), c.len())
+        }
+    }
+}
+
+struct Subject {
+    id: String,
+    mime: &'static str,
+    data: Vec<u8>,
+}
+
+fn subjects(thorough: bool) -> Vec<Subject> {
+    let s = sdk::fixture_signer("ed25519");
+    let mut v = vec![];
+    if thorough {
+        // every C01 seed as well (BMFF Merkle, update manifests, all variants with box hashes)
+        for seed in super::c01::build_seeds(true) {
+            if seed.detached.is_none() {
+                v.push(Subject { id: format!("c01:{}/signed", seed.id.replace('/', "-")), mime: kit::assets::by_name(seed.fmt).mime, data: seed.signed });
+            }
+        }
+    }
+    for a in assets::all() {
+        v.push(Subject { id: format!("{}/unsigned", a.name), mime: a.mime, data: a.data.clone() });
+        v.push(Subject { id: format!("{}/signed", a.name), mime: a.mime, data: sdk::sign_simple(s.as_ref(), a.mime, &a.data, &[]) });
+        if matches!(tamper::family(a.mime), "jpeg" | "png" | "gif" | "jxl") {
+            v.push(Subject { id: format!("{}/signed-box", a.name), mime: a.mime, data: sdk::sign_simple(s.as_ref(), a.mime, &a.data, &[super::c01::COMPRESS]) });
+        }
+    }
+    // a sidecar store read as a stream of its own, and streams that identify nothing
+    let mut b = sdk::builder(sdk::ctx(), super::c01::DEF);
+    b.set_no_embed(true);
+    let png = assets::png();
+    match sdk::sign(&mut b, s.as_ref(), "image/png", &png) {
+        Ok((_, man)) => v.push(Subject { id: "c2pa-store".into(), mime: "application/c2pa", data: man }),
+        Err(e) => kit::ev::machinery(format!("C11 sidecar seed: {e:?}")),
+    }
+    v.push(Subject { id: "garbage/empty".into(), mime: "image/jpeg", data: vec![] });
+    v.push(Subject { id: "garbage/one-byte".into(), mime: "image/jpeg", data: vec![0] });
+    v.push(Subject { id: "garbage/text".into(), mime: "image/jpeg", data: b"hello, world: no container here".to_vec() });
+    v.push(Subject { id: "garbage/zeros".into(), mime: "image/jpeg", data: vec![0u8; 64] });
+    v
+}
+
+fn hints() -> Vec<String> {
+    let mut h: Vec<String> = Reader::supported_mime_types();
+    h.extend(EXTS.iter().map(|s| s.to_string()));
+    let upper: Vec<String> = h.iter().map(|s| s.to_uppercase()).collect();
+    h.extend(upper);
+    h.extend(["", "application/octet-stream", "foo/bar", "txt", ".jpg", "image/jpeg; charset=binary", "\u{0}"].iter().map(|s| s.to_string()));
+    h.sort();
+    h.dedup();
+    h
+}
+
+/// Container family a hint names (MIME types and extensions), "other" when unknown.
+fn hint_family(hint: &str) -> &'static str {
+    let h = hint.to_lowercase();
+    match h.as_str() {
+        "jpg" | "jpeg" => "jpeg",
+        "png" => "png",
+        "gif" => "gif",
+        "avi" | "wav" | "webp" | "audio/wave" | "audio/x-wav" | "audio/vnd.wave" | "video/msvideo" | "video/x-msvideo" | "application/x-troff-msvideo" => "riff",
+        "mp4" | "m4a" | "m4v" | "mov" | "heic" | "heif" | "avif" | "application/mp4" | "audio/mp4" | "video/x-m4v" => "bmff",
+        "jxl" => "jxl",
+        "tif" | "tiff" | "dng" | "arw" | "nef" | "image/dng" | "image/x-adobe-dng" | "image/x-nikon-nef" | "image/x-sony-arw" => "tiff",
+        "svg" | "application/svg+xml" => "svg",
+        "mp3" | "audio/mp3" | "audio/mpeg3" | "audio/x-mp3" => "mp3",
+        "flac" => "flac",
+        "c2pa" | "application/x-c2pa-manifest-store" => "c2pa",
+        other => tamper::family(other),
+    }
+}
+
+fn judge(run: &Run, s: &Subject, base: &Obs, hint: &str, verbose: bool) {
+    run.eval();
+    let o = observe(hint, &s.data);
+    let magic = identifies_container(&s.data);
+    if verbose {
+        println!("  subject={} hint={hint:?} magic={magic:?}: {} (correct hint {:?}: {})", s.id, short(&o), s.mime, short(base));
+    }
+    let case = json!({"subject": s.id, "hint": hint});
+    let fmt = s.id.split('/').next().unwrap_or("");
+    if let Obs::Panic(p) = &o {
+        run.violation(format!("panic {fmt} {}", tamper::panic_key(p)), format!("{} with hint {hint:?}: {p}", s.id), case);
+        return;
+    }
+    run.outcome(match &o {
+        Obs::Err(k) => format!("err:{k}"),
+        Obs::Report(_) => "report".into(),
+        Obs::Panic(_) => unreachable!(),
+    });
+    if magic.is_some() {
+        if o != *base {
+            run.nontrivial(format!("{}|{hint}", s.id));
+            run.violation(
+                format!("hint-changes-result container={} kind={} hint-family={}", magic.unwrap_or(""), s.id.split('/').nth(1).unwrap_or(""), hint_family(hint)),
+                format!("{}: leading bytes identify {:?}; correct hint {:?} gives {}, hint {hint:?} gives {}", s.id, magic, s.mime, short(base), short(&o)),
+                case,
+            );
+        } else if hint_family(hint) != tamper::family(s.mime) || hint.is_empty() {
+            // a genuinely wrong (or missing) hint that was overridden by the bytes
+            run.nontrivial(format!("{}|{hint}", s.id));
+        }
+    }
+}
+
+pub fn run(run: &Run, replay: Option<&Value>) {
+    run.rule("subject x hint; non-trivial = cases where the stream has a magic number and the hint names a different container family (or none), i.e. the hint really is wrong");
+    run.assume("`leading bytes identify a supported container` is decided by the harness's own magic-number table (JPEG, PNG, GIF, TIFF/BigTIFF, JPEG XL container, RIFF, ISO-BMFF ftyp, fLaC, ID3, MPEG audio sync, %PDF)");
+    run.assume("extension list is transcribed from the handlers' SUPPORTED_TYPES; MIME types come from Reader::supported_mime_types() at run time");
+    let subs = subjects(run.tier.is_thorough() || replay.is_some());
+    let hs = hints();
+    if let Some(c) = replay {
+        let id = c["subject"].as_str().unwrap_or("");
+        let s = subs.iter().find(|s| s.id == id).unwrap_or_else(|| kit::ev::machinery(format!("replay: unknown subject {id}")));
+        let base = observe(s.mime, &s.data);
+        judge(run, s, &base, c["hint"].as_str().unwrap_or(""), true);
+        return;
+    }
+    // baseline + determinism
+    let mut bases = vec![];
+    for s in &subs {
+        let a = observe(s.mime, &s.data);
+        let b = observe(s.mime, &s.data);
+        if a != b {
+            kit::ev::machinery(format!("{}: two reads with the correct hint differ", s.id));
+        }
+        if s.id.ends_with("/signed") || s.id.ends_with("/signed-box") {
+            match &a {
+                Obs::Report(c) if !c.contains("\"state\":\"Invalid\"") => {}
+                other => kit::ev::machinery(format!("{}: signed seed does not read back Valid: {}", s.id, short(other))),
+            }
+        }
+        bases.push(a);
+    }
+    let cases: Vec<(usize, usize)> = (0..subs.len()).flat_map(|i| (0..hs.len()).map(move |j| (i, j))).collect();
+    run.space(&format!("{} subjects x {} hints", subs.len(), hs.len()), cases.len() as u64, true);
+    par::for_each(&cases, |(i, j)| judge(run, &subs[*i], &bases[*i], &hs[*j], false));
+    run.sample(json!({"subject": subs[1].id, "hints": hs.iter().take(12).collect::<Vec<_>>(), "baseline": short(&bases[1])}));
+    run.sample(json!({"subject": subs[0].id, "baseline": short(&bases[0])}));
+    run.extra("hints", json!(hs.len()));
+    run.extra("subjects", json!(subs.iter().map(|s| s.id.clone()).collect::<Vec<_>>()));
 }
